@@ -1,13 +1,17 @@
 #!/bin/bash
-# tools/mutest.sh <patch.diff> <Cnn> [tier] : apply a property-breaking change to /repo, run the repo's own
-# tests (they must still pass), run the check (it must report a VIOLATION), and undo the change.
+# tools/mutest.sh <patch.diff> <Cnn> [tier] : apply a property-breaking change to the repository (VERIF_REPO, default
+# /repo), run the repository's own tests (they must still pass), run the check (it must report a VIOLATION), and
+# undo the change.
 set -u
 patch=$1; id=$2; tier=${3:-quick}
-cd /repo || exit 2
+V=$(cd "$(dirname "$0")/.." && pwd)
+R=${VERIF_REPO:-/repo}
+export GOFLAGS=-mod=mod GOPROXY=off GOSUMDB=off GOTOOLCHAIN=local
+cd "$R" || exit 2
 if ! git diff --quiet; then echo "repo dirty"; exit 2; fi
 git apply "$patch" || { echo "patch does not apply"; exit 2; }
-trap 'git -C /repo checkout -- . ' EXIT
+trap 'git -C "$R" checkout -- . ' EXIT
 tests=$( (go build ./... && go test -vet=off -count=1 ./internal/pfcp/ ./internal/report/ ./internal/gtpv1/ ./internal/forwarder/perio/ 2>&1 | grep -c "^ok") )
 ft=$(go test -vet=off -count=1 -run 'TestParseFlowDesc|Test_convertSlice' ./internal/forwarder/ 2>&1 | grep -c "^ok")
 echo "repo tests: $tests/4 packages ok, forwarder subset ok=$ft"
-cd /verif && ./check "$id" "$tier" 2>&1 | grep -E "^(VIOLATION|KNOWN|INFRA|C[0-9]+ )|signature" | cut -c1-300
+cd "$V" && VERIF_REPO=$R ./check "$id" "$tier" 2>&1 | grep -E "^(VIOLATION|KNOWN|INFRA|C[0-9]+ )|signature" | cut -c1-300
